@@ -501,7 +501,10 @@ def oracle_reuse(case):
         return obj
 
     # the objects a caller may keep
-    held = {"namespace": walk(proxy, case["prefix"]), "notify": proxy._notify, "notify-namespace": walk(proxy._notify, case["prefix"])}
+    try:
+        held = {"namespace": walk(proxy, case["prefix"]), "notify": proxy._notify, "notify-namespace": walk(proxy._notify, case["prefix"])}
+    except Exception as ex:
+        fail("C01/call-raised:%s" % type(ex).__name__, "taking the namespace %r of a proxy raised %s: %s" % (".".join(case["prefix"]), type(ex).__name__, str(ex)[:200]))
     held_leaves = {}
     exchanges = 0
     used = set()
